@@ -7,3 +7,6 @@ import DateutilVerif.Properties.C10
 #print axioms C10.history_inv_dropped
 #print axioms C10.gen_invalidate_eq_model
 #print axioms C10.gen_invalidate_uncached
+#print axioms C10.gen_rset_iter_eq_model
+#print axioms C10.rset_iter_eq_spec_source
+#print axioms C10.gen_genitem_eq_model
